@@ -4,6 +4,7 @@ open A07lib
 
 (* passes field: "<p>" or "<p>L" (provider with preload: the deliveries must be the same) *)
 let passes_of (p : string) : int =
+  let p = (match String.index_opt p '@' with Some i -> String.sub p 0 i | None -> p) in
   let n = String.length p in
   if n > 0 && p.[n - 1] = 'L' then int_of_string (String.sub p 0 (n - 1)) else int_of_string p
 
